@@ -179,6 +179,9 @@ func canaryIdx(size int32, f func(i int) bool) {
 func (x *H) effSize(req int32) (k int, n int32) {
 	a := (req + 7) / 8 * 8
 	if x.cfg.HeapLFixedCap == 0 {
+		if a == 0 {
+			a = 8 // a request of 0 bytes gets the smallest block (the size-0 ring head must never match)
+		}
 		return 4, a
 	}
 	switch {
